@@ -1535,10 +1535,22 @@ def run_c16(ctx):
             got = r[3:].split(' ')[0] if r.startswith('Ok ') else r
             if got != e:
                 rep.fail('named value does not encode to its RFC 2661 number', case=c, executor=w, got=r[:200], expected=e)
+    # the attribute-type number a kind carries must also be the one that survives hiding (it stays in clear)
+    hid, want = [], []
+    for k in KIND_LIST:
+        for _ in range(ctx.scale(3, 30)):
+            a = rand_avp(rng, k, maxpay=40)
+            hid.append('HIDE\t%s\t%s\t%s\t%s\t%s' % (a, rbytes(rng, rng.randrange(0, 6)).hex(), rbytes(rng, 4).hex(), '', rbytes(rng, 16).hex()))
+            want.append(KINDS[k][0])
+    rh = run_compare(ctx, rep, hid, ['hide_kind'] * len(hid), lambda c, r: r)
+    for w in IMPLS:
+        for c, t, r in zip(hid, want, rh[w]):
+            if not r.startswith('Ok Hidden(%d,' % t):
+                rep.fail('hidden form does not carry the attribute-type number of its kind (%d)' % t, case=c[:300], executor=w, got=r[:120])
     rep.exhaustive = True
     rep.notes['exhaustive_domain'] = 'all 65536 codes for message type, error type, proxy authen type, result code (typed views and wire), attribute type'
     rep.notes['rule'] = 'exhaustive sweep of every 16-bit code of each enumerated field through the implementation, plus every named value encoded'
-    rep.notes['channels'] = ['AVPS', 'CODE', 'CODEN', 'ENCA']
+    rep.notes['channels'] = ['AVPS', 'CODE', 'CODEN', 'ENCA', 'HIDE']
     return rep
 
 
@@ -1632,6 +1644,9 @@ def gen_rops(rng, rem, depth=0):
                 ops.append('u%d' % (8 * k)); rem -= k
         elif c < 0.7:
             m = rng.choice([0, rem - 1, rem, rem + 1, rem + 5, rng.randrange(0, rem + 2)])
+            if rng.random() < 0.12:
+                # far beyond what remains: position + n must not wrap around the machine word
+                m = rng.choice([2**64 - 1, 2**64 - 1 - rng.randrange(0, 40), 2**63, 2**63 - 1, 2**32, 2**32 - 1, 2**32 + rem, 2**31])
             m = max(0, m)
             ops.append(('bytes', m))
             if m <= rem:
